@@ -144,6 +144,7 @@ type c16World struct {
 type c16Signed struct {
 	text             string
 	l, e, w, m, f, i string // log, witness Ed25519, witness ML-DSA, mirror, foreign, impostor
+	im               string // ML-DSA cosignature by another key under the mirror's name
 	lExt             string // log signature over text + extension line
 }
 
@@ -158,6 +159,7 @@ type c16Env struct {
 	wML, mML *c16MLDSAKey
 	foreign  *c16MLDSAKey
 	impostor *c16MLDSAKey // the witness's name, another key
+	impostorM *c16MLDSAKey // the mirror's name, another key
 
 	verifiers []c16Verifier
 	worlds    map[bool]*c16World
@@ -165,6 +167,7 @@ type c16Env struct {
 	forgedW   string
 	forgedM   string
 	forgedWs  string
+	unkW, unkM string // garbage lines under an own NAME with an unknown key hash
 	transW    string // witness ML-DSA cosignature valid for the decoy tree only
 }
 
@@ -192,11 +195,12 @@ func c16NewEnv(maxSize int) (*c16Env, error) {
 	e.mML = c16NewMLDSAKey(c16MirrorName, "mirror mldsa")
 	e.foreign = c16NewMLDSAKey(c16ForeignName, "foreign mldsa")
 	e.impostor = c16NewMLDSAKey(c16WitnessName, "impostor mldsa")
+	e.impostorM = c16NewMLDSAKey(c16MirrorName, "mirror impostor mldsa")
 
 	for _, k := range []struct {
 		label string
 		key   *c16MLDSAKey
-	}{{"witness", e.wML}, {"mirror", e.mML}, {"foreign", e.foreign}, {"impostor", e.impostor}} {
+	}{{"witness", e.wML}, {"mirror", e.mML}, {"foreign", e.foreign}, {"impostor", e.impostor}, {"mirror-impostor", e.impostorM}} {
 		tw, err := torchwood.NewCosignatureVerifier(c16VKey(k.key.name, c16AlgCosigMLDSA44, k.key.pub.Bytes()))
 		if err != nil {
 			return nil, fmt.Errorf("reference vkey for %s rejected by the public verifier constructor: %v", k.label, err)
@@ -213,6 +217,8 @@ func c16NewEnv(maxSize int) (*c16Env, error) {
 	e.forgedW = c16SigLine(e.wML.name, e.wML.kh, garbage)
 	e.forgedM = c16SigLine(e.mML.name, e.mML.kh, garbage)
 	e.forgedWs = c16SigLine(e.wML.name, e.wML.kh, garbage[:8+64])
+	e.unkW = c16SigLine(e.wML.name, [4]byte{0xde, 0xad, 0xbe, 0xef}, garbage)
+	e.unkM = c16SigLine(e.mML.name, [4]byte{0xde, 0xad, 0xbe, 0xef}, garbage)
 	e.transW = e.wML.cosignCheckpoint(c16Origin, c16DecoySize, verifmc.MTH(e.decoy), c16CosigTimestamp)
 
 	for _, mirror := range []bool{true, false} {
@@ -328,6 +334,7 @@ func (e *c16Env) signedFor(tree string, n int) *c16Signed {
 		m:    e.mML.cosignCheckpoint(c16Origin, n, root, c16CosigTimestamp),
 		f:    e.foreign.cosignCheckpoint(c16Origin, n, root, c16CosigTimestamp),
 		i:    e.impostor.cosignCheckpoint(c16Origin, n, root, c16CosigTimestamp),
+		im:   e.impostorM.cosignCheckpoint(c16Origin, n, root, c16CosigTimestamp),
 	}
 	e.signed[key] = s
 	return s
@@ -373,6 +380,9 @@ func c16Signers(level int) []c16Signer {
 	FWs := func(s *c16Signed, e *c16Env) string { return e.forgedWs }
 	FM := func(s *c16Signed, e *c16Env) string { return e.forgedM }
 	TW := func(s *c16Signed, e *c16Env) string { return e.transW }
+	IM := func(s *c16Signed, e *c16Env) string { return s.im }
+	UW := func(s *c16Signed, e *c16Env) string { return e.unkW }
+	UM := func(s *c16Signed, e *c16Env) string { return e.unkM }
 	out := []c16Signer{
 		{name: "none(log-only)", note: n(L)},
 		{name: "witness-ed25519-only", note: n(L, E)},
@@ -385,6 +395,16 @@ func c16Signers(level int) []c16Signer {
 		{name: "transplanted-witness-cosig(other-tree)", note: n(L, TW), forgedOwn: []string{"witness"}},
 	}
 	if level >= 1 {
+		// one own key's valid cosignature next to a line that only carries the
+		// OTHER own identity's name (another key hash), both directions
+		out = append(out,
+			c16Signer{name: "valid-mirror+witness-ed25519-line", note: n(L, M, E), own: []string{"mirror"}},
+			c16Signer{name: "valid-mirror+impostor-under-witness-name", note: n(L, M, I), own: []string{"mirror"}},
+			c16Signer{name: "valid-mirror+garbage-line(witness-name,unknown-key-hash)", note: n(L, M, UW), own: []string{"mirror"}},
+			c16Signer{name: "valid-witness+impostor-under-mirror-name", note: n(L, W, IM), own: []string{"witness"}},
+			c16Signer{name: "valid-witness+garbage-line(mirror-name,unknown-key-hash)", note: n(L, W, UM), own: []string{"witness"}},
+			c16Signer{name: "impostors-under-both-own-names-only", note: n(L, I, IM)},
+		)
 		out = append(out,
 			c16Signer{name: "forged-witness+valid-mirror", note: n(L, FW, M), own: []string{"mirror"}, forgedOwn: []string{"witness"}},
 			c16Signer{name: "impostor(same-name,other-key)", note: n(L, I)},
